@@ -331,7 +331,11 @@ class Report:
 # ----------------------------------------------------------------------------
 def prove(report, prop_modules, props_module, extra_obligations=()):
     """lake build + forbidden-token grep + axiom audit.  Fills report; returns True when all clean."""
-    ok, out = lake_build(prop_modules + ["Qv"])
+    # the property's own modules decide; the driver needs the models and front-ends of every property (not their proofs),
+    # so a proof of another property that does not build cannot make this check fail
+    ok, out = lake_build(prop_modules)
+    drv = re.findall(r"^import\s+(Qv\.Drv\.\S+)", open(os.path.join(LEAN, "Driver.lean")).read(), flags=re.M)
+    lake_build(drv)
     names = theorem_names(props_module) + list(extra_obligations)
     report.obligations += len(names)
     clean = True
